@@ -86,20 +86,45 @@ def usable_slots():
     return [s for s in check_templates()]
 
 
-def import_line(st):
+LAYOUTS = ("line", "semicolon", "inline", "paren", "backslash")
+
+
+def import_line(st, lay="line"):
+    """Source text of one import statement (a list of physical lines when the layout spreads it over several)."""
     if st["form"] == "import":
         tgt = ".".join(st["module"])
-        return f"import {tgt}" + (f" as al_{len(tgt)}" if st.get("alias") else "")
+        text = f"import {tgt}" + (f" as al_{len(tgt)}" if st.get("alias") else "")
+        return text.replace("import ", "import \\\n    ", 1) if lay == "backslash" else text
     mod = "." * st["level"] + ".".join(st["module"])
-    names = ", ".join(n + (f" as al_{i}" if st.get("alias") and n != "*" else "") for i, n in enumerate(st["names"]))
-    return f"from {mod} import {names}"
+    parts = [n + (f" as al_{i}" if st.get("alias") and n != "*" else "") for i, n in enumerate(st["names"])]
+    if lay == "paren" and "*" not in st["names"]:
+        return f"from {mod} import (\n    " + ",\n    ".join(parts) + ",\n)"
+    if lay == "backslash":
+        return f"from {mod} \\\n    import " + ", ".join(parts)
+    return f"from {mod} import " + ", ".join(parts)
 
 
-def wrap(lines, pos):
-    """Nest `lines` into the slots of pos (outermost first)."""
-    for slot in reversed(pos):
+def effective_layout(st):
+    """The layout a statement is really rendered with (a layout that does not apply falls back to 'line')."""
+    lay = st.get("lay") or "line"
+    if st["form"] == "import" and st.get("grp") is not None and lay in ("paren", "backslash"):
+        return "line"
+    if lay == "inline" and not st["pos"]:
+        return "semicolon"
+    if lay == "paren" and (st["form"] != "from" or "*" in st["names"]):
+        return "line"
+    return lay
+
+
+def wrap(lines, pos, inline=False):
+    """Nest `lines` into the slots of pos (outermost first).  inline: the statement stands on the header line of
+    the innermost compound statement ('if x_: import a')."""
+    for n, slot in enumerate(reversed(pos)):
         head, ind, tail = TEMPLATES[slot]
-        lines = head + ["    " * ind + x for x in lines] + tail
+        if n == 0 and inline:
+            lines = head[:-1] + [head[-1] + " " + lines[0]] + ["    " * ind + x for x in lines[1:]] + tail
+        else:
+            lines = head + ["    " * ind + x for x in lines] + tail
     return lines
 
 
@@ -115,10 +140,14 @@ def render_file(stmts):
                     and t["pos"] == st["pos"] and j not in seen]
             seen.update(same)
             line = "import " + ", ".join(import_line(stmts[j])[len("import "):] for j in same)
+            lay = effective_layout(st) if effective_layout(st) in ("semicolon", "inline") else "line"
         else:
             seen.add(i)
-            line = import_line(st)
-        blocks.append("\n".join(wrap([line], st["pos"])))
+            lay = effective_layout(st)
+            line = import_line(st, lay)
+        if lay == "semicolon":
+            line = "y_ = 1; " + line
+        blocks.append("\n".join(wrap(line.split("\n"), st["pos"], inline=(lay == "inline"))))
     return "x_ = None\n" + "\n".join(blocks) + ("\n" if blocks else "")
 
 
@@ -150,18 +179,31 @@ def path_of(base, name, py=None):
 def materialise(project, base):
     """Write the project below `base` (base/<root>/...), self-check, return the project as re-listed from disk."""
     check_templates()
+    links = [(list(l), list(t)) for l, t in project.get("links", [])]
+    under_link = lambda name: any(list(name[:len(l)]) == l for l, _ in links)
     for d in sorted(project["dirs"], key=len):
-        os.makedirs(path_of(base, d), exist_ok=True)
+        if not under_link(d):
+            os.makedirs(path_of(base, d), exist_ok=True)
     by_file = {}
     for st in project["stmts"]:
         by_file.setdefault(tuple(st["file"]), []).append(st)
     for f in project["files"]:
+        if under_link(f["name"]):
+            continue                    # reached through the symbolic link, written once below its target
         stmts = by_file.get(tuple(f["name"]), []) if f["py"] else []
         text = render_file(stmts) if f["py"] else "not python\nimport nothing.at.all\n"
         if f["py"] and recover(text) != intended(stmts):
             raise RenderError(f"rendered source of {f['name']} does not contain exactly the intended imports:\n{text}")
         with open(path_of(base, f["name"], f["py"]), "w") as fh:
             fh.write(text)
+    for l, t in links:
+        os.symlink(path_of(base, t), path_of(base, l), target_is_directory=True)
+        # a link is a copy: the files below it must carry the same statements as the files below its target
+        for f in project["files"]:
+            if list(f["name"][:len(l)]) == l and f["py"]:
+                twin = tuple(t + list(f["name"][len(l):]))
+                if intended(by_file.get(tuple(f["name"]), [])) != intended(by_file.get(twin, [])):
+                    raise RenderError("statements below a link differ from those below its target")
     return relist(project, base)
 
 
@@ -169,7 +211,7 @@ def relist(project, base):
     """The project as found on disk (os.walk + ast.walk); must equal the abstract project."""
     root = project["root"]
     dirs, files, stmts = [], [], []
-    for dp, dns, fns in os.walk(os.path.join(base, root)):
+    for dp, dns, fns in os.walk(os.path.join(base, root), followlinks=bool(project.get("links"))):
         rel = os.path.relpath(dp, base).split(os.sep)
         dirs.append(rel)
         for fn in fns:
@@ -181,5 +223,6 @@ def relist(project, base):
         raise RenderError("tree on disk differs from the abstract project")
     return {"dirs": want_dirs, "files": want_files,
             "stmts": [{"file": list(s["file"]), "form": s["form"], "level": s["level"], "module": list(s["module"]),
-                       "names": list(s["names"]) if s["form"] == "from" else [], "pos": list(s["pos"])}
+                       "names": list(s["names"]) if s["form"] == "from" else [], "pos": list(s["pos"]),
+                       "lay": effective_layout(s)}
                       for s in project["stmts"]]}
